@@ -88,6 +88,8 @@ class YajilinClue(Combinator):
         if data[idx] == "..":
             return None
         value = data[idx]
+        if value == "??":
+            return 1, "0."
         DIR_MAP = {"^": 1, "v": 2, "<": 3, ">": 4}
         dir = DIR_MAP[value[0]]
         n = int(value[1:])
